@@ -183,8 +183,26 @@ def _tighten(group, atol=1e-13):
 class AeroModel:
     """AeroPoint fed directly with (deformed) meshes through an IndepVarComp: no B-splines in the way."""
 
-    def __init__(self, surfs, flow=None, compressible=False, rotational=False, user_sref=None, meshes=None, rng=None, mode="auto", setup=True, dicts=None):
+    # the same physical inputs expressed in another unit system (law Reexpress of OASLaws): name -> (SI unit, other unit)
+    ALT_UNITS = {"v": ("m/s", "kn"), "alpha": ("deg", "rad"), "beta": ("deg", "rad"), "re": ("1/m", "1/ft"), "rho": ("kg/m**3", "slug/ft**3"), "cg": ("m", "ft"),
+                 "height_agl": ("m", "ft"), "omega": ("rad/s", "deg/s"), "S_ref_total": ("m**2", "ft**2"), "mesh": ("m", "inch")}
+
+    def __init__(self, surfs, flow=None, compressible=False, rotational=False, user_sref=None, meshes=None, rng=None, mode="auto", setup=True, dicts=None, units="SI"):
         from openaerostruct.aerodynamics.aero_groups import AeroPoint
+        from openmdao.utils.units import convert_units
+
+        self.units = units
+
+        class _IVC(om.IndepVarComp):
+            """IndepVarComp that declares every dimensional output in the alternative unit when asked to."""
+
+            def add_output(ivc_self, name, val=1.0, units=None, **kw):
+                key = "mesh" if name.endswith("_mesh") else name
+                if self.units != "SI" and key in AeroModel.ALT_UNITS:
+                    si, alt = AeroModel.ALT_UNITS[key]
+                    assert units == si, (name, units, si)
+                    val, units = convert_units(np.asarray(val, dtype=float), si, alt), alt
+                return super().add_output(name, val=val, units=units, **kw)
 
         self.surfs = surfs
         self.flow = dict(FLOW0)
@@ -193,7 +211,7 @@ class AeroModel:
         self.dicts = dicts if dicts is not None else [surface_dict(s, None if meshes is None else meshes[i], rng) for i, s in enumerate(surfs)]
         self.names = [d["name"] for d in self.dicts]
         prob = om.Problem(reports=False)
-        ivc = om.IndepVarComp()
+        ivc = _IVC()
         ivc.add_output("v", val=self.flow["v"], units="m/s")
         ivc.add_output("alpha", val=self.flow["alpha"], units="deg")
         ivc.add_output("beta", val=self.flow["beta"], units="deg")
@@ -236,11 +254,11 @@ class AeroModel:
 
     def set_flow(self, **kw):
         for k, v in kw.items():
-            self.prob.set_val(k, v)
+            self.prob.set_val(k, v, units=AeroModel.ALT_UNITS[k][0] if k in AeroModel.ALT_UNITS else None)  # values are given in SI
             self.flow[k] = v
 
     def set_mesh(self, name, mesh):
-        self.prob.set_val(name + "_mesh", mesh)
+        self.prob.set_val(name + "_mesh", mesh, units="m")
 
     def run(self):
         self.prob.run_model()
